@@ -396,6 +396,10 @@ def write_evidence(prop, ev):
             raise HarnessError("evidence: distinct_nontrivial < 2 (zero work done?)")
         if not isinstance(cov.get("rule"), str) or not cov.get("samples"):
             raise HarnessError("evidence: rule/samples")
+    # a run made smaller (or larger) than its tier's default says so
+    overrides = {k: v for k, v in sorted(os.environ.items()) if k.startswith(('VERIF_C16_', 'VERIF_C19_', 'VERIF_C20_'))}
+    if overrides:
+        cov['size_overrides_from_environment'] = overrides
     os.makedirs(EVIDENCE_DIR, exist_ok=True)
     path = os.path.join(EVIDENCE_DIR, "%s.json" % prop)
     tmp = path + ".tmp"
